@@ -1,7 +1,7 @@
 package main
 
 // C07: evaluation is total. The property's own product — every function in ListFunctions() × every receiver
-// kind × argument tuples of length 0..3 over 9 argument kinds — plus random composite queries on random data.
+// kind × argument tuples of length 0..3 over 10 argument kinds (incl. a string that is not a valid regular expression) — plus random composite queries on random data.
 // The generic oracles in Ctx.Do (no panic, no hang, no error handed back as data) are the property.
 
 import (
@@ -54,6 +54,8 @@ func c07Receivers() []recvKind {
 		{"array-of-objects", tvSlice(1, obj, obj)},
 		{"nil-map", &TV{T: "map", KK: "str", Nil: 1, V: [][2]any{}}},
 		{"nil-slice", &TV{T: "slice", EI: 1, Nil: 1, V: []*TV{}}},
+		{"map-with-nil-key", tvMap("iface", [][2]any{{"~nil", tvF64(1)}, {hx("a"), tvF64(2)}})},
+		{"map-with-int-and-bool-keys", tvMap("iface", [][2]any{{"~int:5", tvF64(1)}, {"~bool:1", tvStr("x")}, {hx("k"), tvStr("v")}})},
 	}
 }
 
@@ -62,14 +64,14 @@ func nan() float64 {
 	return z / z
 }
 
-var c07Args = []string{"0", "-1", "1.5", "1e30", `""`, `"abc"`, "true", "$.x", "{$.b}"}
+var c07Args = []string{"0", "-1", "1.5", "1e30", `""`, `"abc"`, "true", "$.x", "{$.b}", `"("`}
 
 func init() {
 	evalGens["C07"] = genC07
 }
 
 func genC07(c *Ctx) {
-	c.Rule = "exhaustive: every function of ListFunctions() x 24 receiver kinds x argument tuples (all of length 0..2 in quick, 0..3 in thorough, over 9 argument kinds), receiver under a key and at the root; then random composite queries on random data. distinct = distinct (query skeleton, data shape to depth 2, outcome class); non-trivial = outcome class is not the most common one"
+	c.Rule = "exhaustive: every function of ListFunctions() x 24 receiver kinds x argument tuples (all of length 0..2 in quick, 0..3 in thorough, over 10 argument kinds (incl. a string that is not a valid regular expression)), receiver under a key and at the root; then random composite queries on random data. distinct = distinct (query skeleton, data shape to depth 2, outcome class); non-trivial = outcome class is not the most common one"
 	names := funcNames()
 	recvs := c07Receivers()
 	var tuples [][]string
@@ -116,6 +118,10 @@ func genC07(c *Ctx) {
 		`$.l.Select("")`, `$.l.Select($.e)`, "$.u.k", "$.u.K", "$.AsArray().Select($.q)", "$.e.Left(-1)", "$.e.Right(-1)", "$.e.TrimLeft(-1)", "$.e.TrimRight(-1)",
 		"$.l.First().Divide(0)", "$.l.First().Modulo(0)", "$.n.IsEmpty()", "$.n.IsNotEmpty()", "$.u.IsEmpty()", "$.u.IsNullOrEmpty()", "$", "@", "$.l[@.Greater(1)]", "$.l[@]", "$.l[@.Add(1)]"} {
 		c.DoIsolated(Case{Q: q, D: obj, Cls: "named-by-property", InDomain: true})
+	}
+	nk := tvMap("str", [][2]any{{hx("m"), tvMap("iface", [][2]any{{"~nil", tvF64(1)}, {hx("a"), tvF64(2)}, {"~int:7", tvF64(3)}})}})
+	for _, q := range []string{"$.m.a", "$.m.A", "$.m.zz", "$.m.a?.b", `$.m.RemoveKeysByPrefix("a")`, `$.m.RemoveKeysBySuffix("")`, `$.m.RemoveKeysByRegex(".")`, "$.m.Sum()", `$.m.Select("$")`, "$.m[@.a.Equal(2)]", "$.m.IsEmpty()", "$.m.AsJSON()"} {
+		c.Do(Case{Q: q, D: nk, Cls: "named-by-property/non-string-map-keys", InDomain: true})
 	}
 	c.Exhaustive = true
 	// random composite queries on random data
